@@ -207,11 +207,11 @@ def check_round(e, B, L, H, v, stats):
     stats.ratio("ellipsoid.roundtrip", float(r[i]))
     if r[i] > 1:
         fails.append((int(idx[i]), "ellipsoid.roundtrip: %s xyz2blh(blh2xyz(%r,%r,%r)) = (%r,%r,%r): position differs by %.3g m (tol %.3g m)" %
-                      (e["id"], fl(B[i]), fl(L[i]), fl(H[i]), v[i, 3], v[i, 4], v[i, 5], re_[i], tol[i])))
+                      (e["id"], fl(B[i]), fl(L[i]), fl(H[i]), fl(v[i, 3]), fl(v[i, 4]), fl(v[i, 5]), re_[i], tol[i])))
     bad = (np.abs(v[:, 3]) > PI / 2) | (v[:, 4] > PI) | (v[:, 4] < -PI)
     if bad.any():
         i = int(np.argmax(bad))
-        fails.append((int(idx[i]), "ellipsoid.range: %s xyz2blh gives b=%r l=%r outside [-pi/2,pi/2] x [-pi,pi]" % (e["id"], v[i, 3], v[i, 4])))
+        fails.append((int(idx[i]), "ellipsoid.range: %s xyz2blh gives b=%r l=%r outside [-pi/2,pi/2] x [-pi,pi]" % (e["id"], fl(v[i, 3]), fl(v[i, 4]))))
     return fails
 
 
@@ -244,7 +244,7 @@ def check_inverse(e, X, v, stats):
     bad = (np.abs(v[:, 0]) > PI / 2) | (v[:, 1] > PI) | (v[:, 1] < -PI)
     if bad.any():
         i = int(np.argmax(bad))
-        fails.append((int(idx[i]), "ellipsoid.range: %s xyz2blh(%s) gives b=%r l=%r" % (e["id"], X[i].tolist(), v[i, 0], v[i, 1])))
+        fails.append((int(idx[i]), "ellipsoid.range: %s xyz2blh(%s) gives b=%r l=%r" % (e["id"], X[i].tolist(), fl(v[i, 0]), fl(v[i, 1]))))
     return fails
 
 
